@@ -8,21 +8,24 @@ from .paths import Engine, Rule, path_of
 from .rules_C08 import null_test
 
 META = {
-    'explanation': 'The finite-state machine of SystemClockLoop::loop() is extracted from the switch over mRequestStatus (arms selected '
-                   'by constant value); E-PATH rules over each arm: exhaustiveness, transition relation without sinks, failure paths '
-                   'that touch no clock state, the success path that applies exactly the response; the arm summaries (E-GNF) of the '
-                   'two waiting periods and of the back-off are given their integer meaning on finite domains (elapsed times around '
-                   'period*1000 and the timeout, every 16-bit period) - whichever way the comparison, the local and the cast are '
-                   'spelled; null tests of the reference/backup clocks, the backup write interpreted with the clock scenarios of C13; '
-                   'and a typestate exploration of the FSM for the two timestamps that have no initialiser.',
-    'decided': 'every status value has an arm and only status constants are assigned; from every state the machine reaches the '
-               'request state; a failed or timed-out request changes neither the clock nor the last-sync data; a valid response is '
-               'applied with the value read and resets the period; both waits compare milliseconds with period*1000; the back-off '
-               'never exceeds the sync period nor overflows 16 bits; no use of a null reference/backup clock; timestamps are '
-               'written on every path into a state that reads them; a request is only given up on a path that asked '
-               'isResponseReady() first',
-    'not_decided': 'quantitative timing along interleavings of time steps and reference-clock behaviours (bounded-depth schedules)',
-    'assumptions': ['clang 14 parser', 'loop() is the only writer of the request status'],
+    'explanation': 'E-SEQ, typed, explicit-state: SystemClockLoop::loop() - with keepAlive(), getNow(), syncNow(), the constructors and '
+                   'everything they call - is interpreted along every interleaving, to a depth bound, of time steps from a small set with the '
+                   'behaviours of the reference clock {not ready, ready and valid, ready and invalid}, for five (sync period, initial period, '
+                   'timeout) configurations (short periods, back-off chain, cap of the back-off, 32-bit counter wrap-around, periods beyond '
+                   '65.5 s) and reference == backup / distinct / no backup / no reference; states are merged on (object, protocol state, '
+                   'time).  The abstraction boundary is the Clock interface and clockMillis(); `long` has its 32-bit target width.  A '
+                   'description of the protocol taken from the property text runs beside the object and every call is compared with it '
+                   '(acv/rules_C14b.py).',
+    'decided': 'on every schedule of the family: requests only when none is outstanding and no earlier than the retry period in force allows; '
+               'a valid response is applied in the call that finds it (reading, last-sync time, a distinct backup clock exactly when the clock '
+               'changed); invalid responses, timeouts and idle calls change neither reading nor last-sync time nor backup clock; a request is '
+               'only given up in a call that finds no response ready; the next request comes within two calls of its due time (back-off doubling '
+               'capped at the sync period, sync period after a success - also for periods that do not fit 16 bits of milliseconds); loop() alone '
+               'keeps the clock running; with no reference clock nothing is sent or written; no member without initialiser is read before it is '
+               'written',
+    'not_decided': 'schedules deeper than the bound (7 to 9 calls in the quick tier, 9 to 11 in the thorough tier) and step sizes outside the sets',
+    'assumptions': ['clang 14 parser', 'the reference and backup clocks are reached only through sendRequest / isResponseReady / readResponse / setNow',
+                    'unsigned long is 32 bits wide on the targets (the parser runs with the LP64 model of the host)'],
 }
 
 SCL = 'ace_time::clock::SystemClockLoop'
